@@ -299,6 +299,7 @@ func (e *c08Env) dispatch(f []byte) (accepted bool, handler string, panicked str
 		e.n.ProcessDNS(frame)
 	case packet.PayloadMDNS, packet.PayloadLLMNR:
 		handler = "dns.ProcessMDNS"
+		e.n = dns.VerifNew(e.s) // the response cache keyed by (MAC, id) would hide every later variant of the message
 		e.n.ProcessMDNS(frame)
 	case packet.PayloadNBNS:
 		handler = "dns.ProcessNBNS"
